@@ -126,6 +126,11 @@ FmtOK(e) ==
             /\ e.text = FS!Text(e.tokens)
             /\ IF FmtAccepted(e) THEN ResultOK(e) ELSE ErrorOK(e)
 
+\* for the reader of a BAD line: was the event outside the input class (a generator defect) or is the result wrong
+FmtInput(e) ==
+  /\ InputClass(e) /\ FS!InGrammar(e.tokens) /\ ImageOK(Image(e.segs, e.le))
+  /\ ReadKind(e) = "ok" => (StringSpec(Image(e.segs, e.le), Addr(e.ptr.addr)).v = e.text /\ e.text = FS!Text(e.tokens))
+Reason(e) == IF (IF e.ev = "loc" THEN InputClass(e) /\ ArgsOK(e.args) ELSE FmtInput(e)) THEN "result" ELSE "input-class"
 EventArgs(e) == IF e.ev = "loc" THEN e.args ELSE FmtArgs(e)
 EventOK(e) == IF e.ev = "loc" THEN LocOK(e) ELSE FmtOK(e)
 
@@ -136,7 +141,7 @@ TNext == /\ l <= Len(Rec)
          /\ \E e \in {Rec[l]} :
               \E c \in {IF ConvKnown(e) THEN Abstract(e) ELSE NoCfg} :      \* evaluated once
                 /\ Run(c, IF ConvKnown(e) THEN EventArgs(e) ELSE <<>>)
-                /\ IF EventOK(e) THEN TRUE ELSE PrintT(<<"BAD", l, e.ev, e.src>>)
+                /\ IF EventOK(e) THEN TRUE ELSE PrintT(<<"BAD", l, e.ev, e.src, Reason(e)>>)
 Spec == TInit /\ [][TNext]_<<l, pvars>>
 Accepted == TLCGet("stats").diameter - 1 = Len(Rec)
 Post == IF Accepted THEN TRUE ELSE PrintT(<<"UNCONSUMED", TLCGet("stats").diameter>>) /\ FALSE
